@@ -11,7 +11,7 @@ import itertools
 
 import numpy as np
 
-from vf.common import Plan, crandn, held, violated, relerr, rng_for, pick, nrm
+from vf.common import structured, Plan, crandn, held, violated, relerr, rng_for, pick, nrm
 from vf.oracles import dft as O
 
 SPEC = {
@@ -171,7 +171,8 @@ def run_case(case):
         elif view and len(shape) >= 2:
             x = crandn(rng, shape[::-1], dtype).T        # non-contiguous input
         else:
-            x = crandn(rng, shape, dtype)
+            with structured((sum(case["rs"]) // 3) % 9 if sum(case["rs"]) % 2 else 0) as skind:
+                x = crandn(rng, shape, dtype)
         sig = "|".join(map(str, [case["gen"], "i" if inverse else "f", len(shape),
                                  _parity(shape), case["akind"], center, norm,
                                  case["okind"], dtype.name]))
